@@ -711,6 +711,180 @@ Proof.
         -- cbn [StreamSpec.expect]. destruct (ev_out pend x u k n sp) as [o1 p1]. cbn [fst snd] in *. rewrite <- app_assoc, Hex. reflexivity.
 Qed.
 
+(* ---------------- where the reader stands when a unit is delivered ---------------- *)
+
+Fixpoint nd_iter (n : nat) (s : dstate) : list (res DemuxerData) * dstate :=
+  match n with
+  | O => ([], s)
+  | S k => let '(r, s1) := nd P s in let '(rs, s2) := nd_iter k s1 in (r :: rs, s2)
+  end.
+
+Lemma nd_iter_app a : forall b s,
+  nd_iter (a + b) s = let '(r1, s1) := nd_iter a s in let '(r2, s2) := nd_iter b s1 in (r1 ++ r2, s2).
+Proof using.
+  induction a as [|a IH]; intros b s; cbn [Nat.add nd_iter].
+  - destruct (nd_iter b s) as [r2 s2]. reflexivity.
+  - destruct (nd P s) as [r s1]. rewrite IH. destruct (nd_iter a s1) as [r1 s1']. destruct (nd_iter b s1') as [r2 s2]. reflexivity.
+Qed.
+
+(* buffered data are handed out without touching reader, pool or program map *)
+Lemma buffer_calls : forall B s, d_buffer s = B ->
+  exists s', nd_iter (length B) s = (map Ok B, s') /\ d_buffer s' = [] /\ d_pool s' = d_pool s /\ d_pm s' = d_pm s /\
+             (forall bufs, at_bufs s bufs -> at_bufs s' bufs).
+Proof using.
+  induction B as [|b B IH]; intros s HB.
+  - exists s. cbn [length nd_iter map]. split; [reflexivity|]. split; [exact HB|]. split; [reflexivity|]. split; [reflexivity|]. intros bufs H; exact H.
+  - cbn [length nd_iter map]. unfold nd. rewrite (buffered_first P None no_skip s b B HB).
+    set (s1 := mk_dstate B (d_pb s) (d_pool s) (d_pm s) (d_reader s) (d_opt_size s) (d_groups s) (d_consulted s)).
+    destruct (IH s1 eq_refl) as (s' & E & H1 & H2 & H3 & H4). fold (nd P). rewrite E.
+    exists s'. split; [reflexivity|]. split; [exact H1|]. split; [exact H2|]. split; [exact H3|].
+    intros bufs Hat. apply H4. exact Hat.
+Qed.
+
+Lemma feed_nil_inv pl pm pl1 pm1 o : feed P pl pm [] = Some (pl1, pm1, o) -> pl1 = pl /\ pm1 = pm /\ o = [].
+Proof using. cbn [feed]. intros H. injection H as <- <- <-. auto. Qed.
+
+(* one NextData call from an empty buffer: it reads the packets that deliver nothing and stops right behind the first
+   packet that delivers something *)
+Lemma loop_reach : forall pkts1 bufs1 sd fuel p b bufs2 pl1 pm1 pl2 pm2 d ds,
+  (S (length bufs1) < fuel)%nat -> d_buffer sd = [] -> at_bufs sd (bufs1 ++ b :: bufs2) ->
+  Forall2 (fun b p => parse_packet_bytes b = Ok p) bufs1 pkts1 -> parse_packet_bytes b = Ok p ->
+  feed P (d_pool sd) (d_pm sd) pkts1 = Some (pl1, pm1, []) ->
+  feed P pl1 pm1 [p] = Some (pl2, pm2, d :: ds) ->
+  exists s', next_data_loop P None no_skip fuel sd = (Ok d, s') /\ at_bufs s' bufs2 /\ d_buffer s' = ds /\
+             d_pool s' = pl2 /\ d_pm s' = pm2.
+Proof using SP SP_parses.
+  induction pkts1 as [|p1 r1 IH]; intros bufs1 sd fuel p b bufs2 pl1 pm1 pl2 pm2 d ds Hfuel Hbuf Hat HF Hb Hf1 Hf2.
+  - inversion HF; subst bufs1. cbn [app] in Hat. destruct (feed_nil_inv _ _ _ _ _ Hf1) as (-> & -> & _).
+    destruct fuel as [|k]; [lia|]. rewrite loop_unfold.
+    destruct (next_packet_cons sd b bufs2 p Hat Hb) as (s1 & Hnp & (C1 & C2 & C3) & Hat1 & _). rewrite Hnp. cbn [after_packet].
+    cbn [feed] in Hf2. rewrite C1, C2.
+    destruct (pool_add (d_pm sd) (d_pool sd) p) as [pla g]. destruct g as [|g0 g']; [discriminate Hf2|].
+    change (d_pm (log_group (set_pool s1 pla) (g0 :: g'))) with (d_pm s1). rewrite C2.
+    destruct (parse_data P None (d_pm sd) (g0 :: g')) as [ds0| |]; try discriminate.
+    injection Hf2 as <- <- Hout. rewrite app_nil_r in Hout. subst ds0. cbn [update_data].
+    eexists. split; [reflexivity|]. split; [exact Hat1|]. cbn [log_group set_pool d_pool d_pm d_buffer]. rewrite C3, Hbuf, C2.
+    split; [reflexivity|]. split; reflexivity.
+  - inversion HF as [|b1 p1' bufs1' r1' Hb1 HF']; subst. cbn [app length] in *.
+    destruct fuel as [|k]; [lia|]. rewrite loop_unfold.
+    destruct (next_packet_cons sd b1 _ p1 Hat Hb1) as (s1 & Hnp & (C1 & C2 & C3) & Hat1 & _). rewrite Hnp. cbn [after_packet].
+    cbn [feed] in Hf1. rewrite C1, C2.
+    destruct (pool_add (d_pm sd) (d_pool sd) p1) as [pla g]. destruct g as [|g0 g'].
+    + apply (IH bufs1' (set_pool s1 pla) k p b bufs2 pl1 pm1 pl2 pm2 d ds); try assumption; try lia.
+      * cbn [set_pool d_buffer]. rewrite C3. exact Hbuf.
+      * cbn [set_pool d_pool d_pm]. rewrite C2. exact Hf1.
+    + change (d_pm (log_group (set_pool s1 pla) (g0 :: g'))) with (d_pm s1). rewrite C2.
+      destruct (parse_data P None (d_pm sd) (g0 :: g')) as [ds0| |]; try discriminate.
+      destruct (feed P pla (pm_after (d_pm sd) ds0) r1) as [[[plb pmb] outr]|] eqn:Er; try discriminate.
+      injection Hf1 as <- <- Hout. apply app_eq_nil in Hout. destruct Hout as [-> ->]. cbn [update_data].
+      apply (IH bufs1' (log_group (set_pool s1 pla) (g0 :: g')) k p b bufs2 plb pmb pl2 pm2 d ds); try assumption; try lia.
+      * cbn [log_group set_pool d_buffer]. rewrite C3. exact Hbuf.
+      * cbn [log_group set_pool d_pool d_pm]. rewrite C2. exact Er.
+Qed.
+
+Lemma nd_reach pkts1 bufs1 sd p b bufs2 pl1 pm1 pl2 pm2 d ds :
+  d_buffer sd = [] -> at_bufs sd (bufs1 ++ b :: bufs2) ->
+  Forall2 (fun b p => parse_packet_bytes b = Ok p) bufs1 pkts1 -> parse_packet_bytes b = Ok p ->
+  feed P (d_pool sd) (d_pm sd) pkts1 = Some (pl1, pm1, []) ->
+  feed P pl1 pm1 [p] = Some (pl2, pm2, d :: ds) ->
+  exists s', nd P sd = (Ok d, s') /\ at_bufs s' bufs2 /\ d_buffer s' = ds /\ d_pool s' = pl2 /\ d_pm s' = pm2.
+Proof using SP SP_parses.
+  intros Hbuf Hat HF Hb Hf1 Hf2. unfold nd, next_data. rewrite Hbuf, (at_bufs_fuel sd _ Hat).
+  apply (loop_reach pkts1 bufs1 sd _ p b bufs2 pl1 pm1 pl2 pm2 d ds); try assumption.
+  rewrite app_length. cbn [length]. lia.
+Qed.
+
+Definition ev_bytes (e : ev) : list Z := spkt_bytes (ev_pkt e).
+
+Lemma evs_seen l : Forall spkt_ok (map ev_pkt l) ->
+  Forall2 (fun b p => parse_packet_bytes b = Ok p) (map ev_bytes l) (map ev_obs l).
+Proof using.
+  induction l as [|e l IH]; intros H; [constructor|]. cbn [map] in *.
+  constructor; [apply (spkt_seen _ (Forall_inv H))|apply IH, (Forall_inv_tail H)].
+Qed.
+
+(* the calls that deliver the data of [pre], then the call that reads the delivering packet e *)
+Theorem reach_event : forall pre s pend pl pm reg x u k n sp post qe sd d ds,
+  Inv s pend pl pm reg -> evs_ok reg (pre ++ EPkt x u k n sp :: post) ->
+  (forall y, In y (reg ++ announced (pre ++ EPkt x u k n sp :: post)) -> y <> C_PIDNull /\ pes y = false) ->
+  (forall y, pid_seq y (s y) (proj y (pre ++ EPkt x u k n sp :: post))) ->
+  Forall spkt_ok (map ev_pkt (qe ++ pre ++ EPkt x u k n sp :: post)) ->
+  d_buffer sd = [] -> at_bufs sd (map ev_bytes (qe ++ pre ++ EPkt x u k n sp :: post)) ->
+  feed P (d_pool sd) (d_pm sd) (map ev_obs qe) = Some (pl, pm, []) ->
+  fst (ev_out (snd (delivered pend pre)) x u k n sp) = d :: ds ->
+  exists sn s', nd_iter (length (fst (delivered pend pre))) sd = (map Ok (fst (delivered pend pre)), sn) /\
+    nd P sn = (Ok d, s') /\ at_bufs s' (map ev_bytes post) /\ d_buffer s' = ds.
+Proof using SP_parses tbl_pes.
+  induction pre as [|e1 pre IH]; intros s pend pl pm reg x u k n sp post qe sd d ds Hinv Hok Hreg Hseq Hsp Hbuf Hat Hq Hout.
+  - cbn [app delivered fst snd length nd_iter map] in *. destruct Hok as (Hkind & Hin & Htbl & _).
+    rewrite announced_cons in Hreg.
+    assert (Hseqx : pid_seq x (s x) ((u, k, n, sp) :: proj x post)).
+    { specialize (Hseq x). cbn [proj] in Hseq. rewrite Z.eqb_refl in Hseq. exact Hseq. }
+    destruct (step_pkt s pend pl pm reg Hinv ltac:(intros y Hy; apply Hreg, in_or_app; left; exact Hy) x u k n sp (proj x post)
+                ltac:(intros y Hy; apply Hreg, in_or_app; right; apply in_or_app; left; exact Hy) Hkind Hin Htbl Hseqx)
+      as (pl1 & pm1 & Hfeed1 & _).
+    specialize (Hfeed1 []). change (feed P pl1 pm1 []) with (Some (pl1, pm1, @nil DemuxerData)) in Hfeed1. cbv iota beta in Hfeed1. rewrite Hout, app_nil_r in Hfeed1.
+    rewrite !map_app in Hat, Hsp. cbn [map] in Hat, Hsp. apply Forall_app in Hsp. destruct Hsp as [Hsp1 Hsp2].
+    destruct (spkt_seen sp (Forall_inv Hsp2)) as [_ Hparse].
+    destruct (nd_reach (map ev_obs qe) (map ev_bytes qe) sd (obs sp) (ev_bytes (EPkt x u k n sp)) (map ev_bytes post)
+                pl pm pl1 pm1 d ds Hbuf Hat (evs_seen qe Hsp1) Hparse Hq Hfeed1) as (s' & Hnd & Hat' & Hb' & _).
+    exists sd, s'. split; [reflexivity|]. split; [exact Hnd|]. split; [exact Hat'|exact Hb'].
+  - assert (Hassoc : qe ++ (e1 :: pre) ++ EPkt x u k n sp :: post = (qe ++ [e1]) ++ pre ++ EPkt x u k n sp :: post).
+    { rewrite <- app_assoc. reflexivity. }
+    destruct e1 as [f|x1 u1 k1 n1 sp1].
+    + (* a filler *)
+      cbn [app delivered] in *. destruct Hok as [Hf Hok].
+      destruct (step_fill s pend pl pm reg f Hinv ltac:(intros y Hy; apply Hreg, in_or_app; left; exact Hy) Hf) as (pl1 & Hadd & Hinv1).
+      apply (IH s pend pl1 pm reg x u k n sp post (qe ++ [EFill f]) sd d ds Hinv1 Hok Hreg Hseq); try assumption.
+      * rewrite <- Hassoc. exact Hsp.
+      * rewrite <- Hassoc. exact Hat.
+      * rewrite map_app, (feed_app P _ _ _ _ _ _ _ Hq). cbn [map]. change (ev_obs (EFill f)) with (obs f).
+        rewrite (feed_quiet pl pm (obs f) pl1 Hadd). reflexivity.
+    + (* a payload packet *)
+      cbn [app] in Hok, Hreg, Hseq. destruct Hok as (Hkind & Hin & Htbl & Hok). rewrite announced_cons in Hreg.
+      assert (Hseqx : pid_seq x1 (s x1) ((u1, k1, n1, sp1) :: proj x1 (pre ++ EPkt x u k n sp :: post))).
+      { specialize (Hseq x1). cbn [proj] in Hseq. rewrite Z.eqb_refl in Hseq. exact Hseq. }
+      destruct (step_pkt s pend pl pm reg Hinv ltac:(intros y Hy; apply Hreg, in_or_app; left; exact Hy) x1 u1 k1 n1 sp1 _
+                  ltac:(intros y Hy; apply Hreg, in_or_app; right; apply in_or_app; left; exact Hy) Hkind Hin Htbl Hseqx)
+        as (pl1 & pm1 & Hfeed1 & Hinv1).
+      cbn [delivered] in Hout |- *.
+      destruct (ev_out pend x1 u1 k1 n1 sp1) as [o1 pend1] eqn:Eo. cbn [fst snd] in Hfeed1, Hinv1.
+      destruct (delivered pend1 pre) as [o2 pend2] eqn:Ed. cbn [fst snd] in Hout |- *.
+      assert (Hreg1 : forall y, In y ((if completes u1 k1 n1 then reg ++ announces u1 else reg) ++
+                                      announced (pre ++ EPkt x u k n sp :: post)) -> y <> C_PIDNull /\ pes y = false).
+      { intros y Hy. apply Hreg. destruct (completes u1 k1 n1); [rewrite <- app_assoc in Hy; exact Hy|cbn [app]; exact Hy]. }
+      assert (Hseq1 : forall y, pid_seq y (supd s x1 (next_st (s x1) u1 k1 n1 sp1) y) (proj y (pre ++ EPkt x u k n sp :: post))).
+      { intros y. destruct (Z.eq_dec y x1) as [->|Hne].
+        - rewrite supd_same. cbn [pid_seq] in Hseqx. apply Hseqx.
+        - rewrite (supd_other _ _ _ _ Hne). specialize (Hseq y). cbn [proj] in Hseq. destruct (x1 =? y) eqn:E; [lia|exact Hseq]. }
+      pose proof (Hfeed1 []) as Hf1. change (feed P pl1 pm1 []) with (Some (pl1, pm1, @nil DemuxerData)) in Hf1. cbv iota beta in Hf1. rewrite app_nil_r in Hf1.
+      destruct o1 as [|d1 ds1].
+      * (* nothing delivered: the call goes on *)
+        cbn [app].
+        pose proof (IH _ pend1 pl1 pm1 _ x u k n sp post (qe ++ [EPkt x1 u1 k1 n1 sp1]) sd d ds Hinv1 Hok Hreg1 Hseq1) as IH'.
+        rewrite Ed in IH'. cbn [fst snd] in IH'. apply IH'; try assumption.
+        -- rewrite <- Hassoc. exact Hsp.
+        -- rewrite <- Hassoc. exact Hat.
+        -- rewrite map_app, (feed_app P _ _ _ _ _ _ _ Hq). cbn [map]. change (ev_obs (EPkt x1 u1 k1 n1 sp1)) with (obs sp1).
+           rewrite Hf1. reflexivity.
+      * (* this packet ends a call *)
+        rewrite map_app in Hat, Hsp. cbn [app map] in Hat, Hsp. apply Forall_app in Hsp. destruct Hsp as [Hsp1 Hsp2].
+        destruct (spkt_seen sp1 (Forall_inv Hsp2)) as [_ Hparse].
+        destruct (nd_reach (map ev_obs qe) (map ev_bytes qe) sd (obs sp1) (ev_bytes (EPkt x1 u1 k1 n1 sp1))
+                    (map ev_bytes (pre ++ EPkt x u k n sp :: post))
+                    pl pm pl1 pm1 d1 ds1 Hbuf Hat (evs_seen qe Hsp1) Hparse Hq Hf1) as (s1 & Hnd1 & Hat1 & Hb1 & Hp1 & Hm1).
+        destruct (buffer_calls ds1 s1 Hb1) as (s2 & Hit2 & Hb2 & Hp2 & Hm2 & Hat2).
+        pose proof (IH _ pend1 pl1 pm1 _ x u k n sp post [] s2 d ds Hinv1 Hok Hreg1 Hseq1) as IH'.
+        rewrite Ed in IH'. cbn [fst snd app] in IH'.
+        destruct IH' as (sn & s' & Hit & Hnd & Hat' & Hb'); try assumption.
+        -- exact (Forall_inv_tail Hsp2).
+        -- apply Hat2. exact Hat1.
+        -- cbn [map feed]. rewrite Hp2, Hm2, Hp1, Hm1. reflexivity.
+        -- exists sn, s'. split; [|split; [exact Hnd|split; assumption]].
+           cbn [app length]. rewrite app_length. cbn [nd_iter]. rewrite Hnd1, (nd_iter_app (length ds1) (length o2) s1), Hit2, Hit.
+           cbn [map]. rewrite map_app. reflexivity.
+Qed.
+
 End Domain.
 
 (* (restated outside the section: lia makes every lemma proved inside depend on all its hypotheses) *)
@@ -1133,6 +1307,42 @@ Proof.
     + destruct (units_of (rs_pids rs) x) as [|c l] eqn:E; [reflexivity|]. exfalso. apply Hout.
       apply units_of_in. rewrite E. discriminate.
     + intros y u k n p H -> . destruct (event_facts SP rs Hwf x u k n p H) as (_ & B & _). exact (Hout B).
+Qed.
+
+(* where the reader stands: the call that returns the first datum delivered by the packet (x, u, k of n) - for a
+   PAT / PMT unit the packet that completes it - is the call number |data delivered before| + 1, it returns that datum,
+   leaves the other data of the unit in the buffer, and has consumed the stream exactly up to the end of that packet *)
+Theorem delivered_at pre x u k n sp post d ds :
+  rs_events rs = pre ++ EPkt x u k n sp :: post ->
+  fst (ev_out (snd (delivered no_pend pre)) x u k n sp) = d :: ds ->
+  exists sn s',
+    nd_iter (length (fst (delivered no_pend pre))) (init_dstate (new_reader (stream_bytes rs) None Seekable) 188) =
+      (map Ok (fst (delivered no_pend pre)), sn) /\
+    nd full_parsers sn = (Ok d, s') /\
+    r_rest (d_reader s') = flat_map (fun e => spkt_bytes (ev_pkt e)) post /\
+    d_buffer s' = ds.
+Proof.
+  intros Hev Hout. pose proof Hwf as (Hsorted & Hall & Hproj & Hfill & Hpat & Hann).
+  pose proof (stream_pkts_ok SP rs Hwf) as Hsp. destruct (pkts_seen _ Hsp) as [Hb _].
+  set (sd := init_dstate (new_reader (stream_bytes rs) None Seekable) 188).
+  assert (Hat : at_bufs sd (map ev_bytes ([] ++ pre ++ EPkt x u k n sp :: post))).
+  { cbn [app]. rewrite <- Hev. unfold sd. rewrite stream_bufs.
+    change (map ev_bytes (rs_events rs)) with (map (fun e => spkt_bytes (ev_pkt e)) (rs_events rs)).
+    apply init_at_bufs. rewrite <- (map_map ev_pkt spkt_bytes). exact Hb. }
+  destruct (reach_event SP SP_parses pidl (table_pid (rs_pids rs)) (pes_pid (rs_pids rs)) (table_pes_excl (rs_pids rs))
+              pre (fun _ => None) no_pend [] [] [] x u k n sp post [] sd d ds) as (sn & s' & H1 & H2 & H3 & H4); try assumption.
+  - apply init_inv.
+  - rewrite <- Hev. apply (evs_ok_intro rs); [|exact Hfill|exact Hpat].
+    intros x' u' k' n' p' H. destruct (event_facts SP rs Hwf x' u' k' n' p' H) as (A & B & _). split; assumption.
+  - rewrite <- Hev. cbn [app]. intros y Hy. destruct (Hann y Hy) as [Hn1 Hn2]. split; [exact Hn1|].
+    unfold pes_pid. destruct (units_of (rs_pids rs) y) as [|c l] eqn:E; [reflexivity|].
+    rewrite (Hn2 c ltac:(left; reflexivity)). reflexivity.
+  - rewrite <- Hev. intros y. apply (stream_seq SP SP_parses rs Hwf).
+  - cbn [app]. rewrite <- Hev. exact Hsp.
+  - reflexivity.
+  - reflexivity.
+  - exists sn, s'. split; [exact H1|]. split; [exact H2|]. split; [|exact H4].
+    destruct H3 as (_ & _ & Hr & _). rewrite Hr. unfold ev_bytes. symmetry. apply flat_map_concat_map.
 Qed.
 
 End Stream.
